@@ -71,6 +71,7 @@ type Frame struct {
 }
 
 type Exec struct {
+	loopOwner *FuncContract // contract whose loop clauses cut the loops of the function being executed
 	elemIdx string // index term of the `fs[i]()` call whose call-site contracts are being checked
 	vc   *VC
 	p    *Prog
@@ -642,6 +643,11 @@ func (x *Exec) wf(st *State, t types.Type, term string, mode string) {
 // ---------- obligations ----------
 
 func (x *Exec) addObl(st *State, kind, name, goal, pos, text string) *Obl {
+	// loop clauses of a contract that belongs to other properties only: they are proved by those
+	// properties' checks; here (a call-site sweep for another property) they are only assumed
+	if (kind == "inv-entry" || kind == "inv-preserved" || kind == "decreases") && x.loopOwner != nil && x.prop != "" && !x.wantObl(x.loopOwner.Props) {
+		return &Obl{Name: name, Kind: kind}
+	}
 	if c := x.oblNames[name]; c > 0 {
 		x.oblNames[name] = c + 1
 		name = fmt.Sprintf("%s~%d", name, c+1)
